@@ -3251,8 +3251,11 @@ class StateRetainer:
         ``backUp()`` or ``restoreBackup()``.
         """
         paramDefs = set()
+        ownMaterial = getattr(self.composite, "material", None)
         items = itertools.chain(
             (self.composite,),
+            # the retained object's own material (iterChildrenWithMaterials only yields those of descendants)
+            () if ownMaterial is None else (ownMaterial,),
             self.composite.iterChildrenWithMaterials(deep=True),
         )
         for child in items:
